@@ -344,6 +344,22 @@ func (c *Conn) Close() error {
 	}
 	c.closed = true
 	c.mu.Unlock()
+	if c.net != nil && c.net.ResetOnCloseWithUnread {
+		c.rd.mu.Lock()
+		unread := len(c.rd.recv) + len(c.rd.inflight)
+		c.rd.mu.Unlock()
+		if unread > 0 {
+			c.logOp("close_with_unread_input", unread)
+			c.net.mu.Lock()
+			c.net.RSTOnClose++
+			c.net.mu.Unlock()
+			c.rd.doReset()
+			c.wr.doReset()
+			c.rd.stopTimers()
+			c.wr.stopTimers()
+			return nil
+		}
+	}
 	c.logOp("close", 0)
 	c.wr.closeWrite()
 	c.rd.closeRead()
@@ -434,6 +450,12 @@ type Net struct {
 	DefaultPolicy ChunkPolicy
 	DefaultAuto   bool
 	TCPLikeConns  bool // hand TCPLike wrappers to the system
+	// ResetOnCloseWithUnread: closing an end that has received bytes it never read (or that are
+	// on their way to it) aborts the connection, as close(2) on a TCP socket with unread input
+	// does: the peer gets a reset and whatever this end had written but not yet delivered is
+	// lost. RSTOnClose counts how often that happened.
+	ResetOnCloseWithUnread bool
+	RSTOnClose             int
 	AutoDial      bool // complete dials immediately with success
 	nextPort      int
 	// TimeoutAddrs: dials to these addresses hang for DialTimeout and then fail with a timeout.
